@@ -123,6 +123,15 @@ CHECKS.update({
               "buffers; TLC monitors decide. A leak of sessions never handed out by Accept is a listed known finding."),
         design_ref="§4 C15", note="Trusted: synctest's bubble goroutine tracking, runtime.Stack parsing, the sanitizer (verif tag).",
         technique="TLA+ lifecycle model + TLC (liveness); bubble leak detection + pool sanitizer judged by TLC monitors"),
+    "C17": dict(
+        category="model_checking",
+        text=("TimedSched.tla models Put, the prepend hand-over and the workers' heap/timer logic (Stop, conditional drain, Reset, the timer "
+              "case) under both Go timer-channel semantics; TLC checks ExactlyOnce, NeverEarly, Prompt, Covered, NoStuckDrain and ExactTime "
+              "with time advancing only at quiescence. TLC-generated scripts and seeded concurrent drives run on the real scheduler inside a "
+              "synctest bubble (exact execution times, compared with the model's prediction) and in real time with asynctimerchan=0/1; the "
+              "SchedObs monitors decide via TLC. A genuine defect (task never run when the timer fires exactly at its deadline) was repaired."),
+        design_ref="§4 C17, §3.7", note="Trusted: synctest's virtual clock; real-time runs use a 2 s grace.",
+        technique="TLA+ model with two timer semantics + TLC; scripts/drives in virtual and real time judged by TLC monitors"),
     "C19": dict(
         category="model_checking",
         text=("Frame.tla: OOBConsumesNoSeqid (action property), OOBNeverEntersFecOrKcp, refusal rule and LenBound for OOB are model-checked. "
